@@ -101,6 +101,8 @@ class Sources:
             if spec is None or not spec.origin:
                 return None
             path = spec.origin
+        if not path.endswith(".py"):
+            return None  # extension module (math, ...): no source; its members are modelled builtins
         sm = SourceModule(modname, path)
         self.mods[modname] = sm
         return sm
